@@ -242,20 +242,16 @@ func c07Defects(a *refsem.Arch, base *seccomp.Policy, limitSlots int) []defect {
 
 var tablelessInfos = []*arch.Info{arch.PPC, arch.PPC64, arch.PPC64LE, arch.S390, arch.S390X, arch.MIPS, arch.MIPSEL, arch.MIPS64, arch.MIPS64N32, arch.MIPSEL64, arch.MIPSEL64N32}
 
-func checkC07(tier, replay string) int {
-	if replay != "" {
-		return replayCompile(replay)
-	}
-	ctx := evid.New("C07", tier, "exploration")
-	r := newCompileRun(ctx, engine.ClsAccept, engine.ClsReject, engine.ClsPanic, engine.ClsErrShape, engine.ClsDecision, engine.ClsForeign)
-	type job struct {
-		a     *refsem.Arch
-		base  *seccomp.Policy
-		d1    *defect
-		d2    *defect
-		label string
-	}
-	var jobs []job
+type c07Job struct {
+	a     *refsem.Arch
+	base  *seccomp.Policy
+	d1    *defect
+	d2    *defect
+	label string
+}
+
+func c07Jobs(tier string) []c07Job {
+	var jobs []c07Job
 	for _, a := range refsem.Archs() {
 		for bi, b := range c07Bases(a) {
 			limit := 0
@@ -263,9 +259,9 @@ func checkC07(tier, replay string) int {
 				limit = 6
 			}
 			ds := c07Defects(a, b, limit)
-			jobs = append(jobs, job{a: a, base: b, label: fmt.Sprintf("base%d", bi)})
+			jobs = append(jobs, c07Job{a: a, base: b, label: fmt.Sprintf("base%d", bi)})
 			for i := range ds {
-				jobs = append(jobs, job{a: a, base: b, d1: &ds[i], label: fmt.Sprintf("base%d", bi)})
+				jobs = append(jobs, c07Job{a: a, base: b, d1: &ds[i], label: fmt.Sprintf("base%d", bi)})
 			}
 			// pairs of defects (different kinds) on the smaller bases
 			if bi < 5 && (tier == "thorough" || a.Name == "x86_64") {
@@ -278,12 +274,42 @@ func checkC07(tier, replay string) int {
 						if ds[i].label[:2] == ds[j].label[:2] {
 							continue
 						}
-						jobs = append(jobs, job{a: a, base: b, d1: &ds[i], d2: &ds[j], label: fmt.Sprintf("base%d-pair", bi)})
+						jobs = append(jobs, c07Job{a: a, base: b, d1: &ds[i], d2: &ds[j], label: fmt.Sprintf("base%d-pair", bi)})
 					}
 				}
 			}
 		}
 	}
+	return jobs
+}
+
+// mutate applies the job's defects to a clone of its base; ok=false if the second mutation no longer applies.
+func (j c07Job) mutate() (p *seccomp.Policy, ok bool) {
+	p = clonePolicy(j.base)
+	ok = true
+	func() {
+		defer func() {
+			if recover() != nil {
+				ok = false
+			}
+		}()
+		if j.d1 != nil {
+			j.d1.apply(p)
+		}
+		if j.d2 != nil {
+			j.d2.apply(p)
+		}
+	}()
+	return
+}
+
+func checkC07(tier, replay string) int {
+	if replay != "" {
+		return replayCompile(replay)
+	}
+	ctx := evid.New("C07", tier, "exploration")
+	r := newCompileRun(ctx, engine.ClsAccept, engine.ClsReject, engine.ClsPanic, engine.ClsErrShape, engine.ClsDecision, engine.ClsForeign)
+	jobs := c07Jobs(tier)
 	parallelFor(len(jobs), func(i int) {
 		j := jobs[i]
 		p := clonePolicy(j.base)
